@@ -1,5 +1,5 @@
 (* C18 correspondence cases: what the implementation answered, to be compared with the model *)
-From FB Require Export C18.Model Base.Run.
+From FB Require Export C18.Model C18.Model2 C18.NamesGen Base.Run.
 
 Definition aty_eqb (a b : aty) : bool :=
   match a, b with
@@ -25,7 +25,32 @@ Inductive case :=
                                               4 MethodName 5 ParameterName 6 LocalVariableName *)
 | CSplit (s : str) (r : option (str * str))
 | CSimple (s : str) (r : str)
-| CSweep (kind : N) (alphabet : str) (len : N) (accepted : list str).
+| CSweep (kind : N) (alphabet : str) (len : N) (accepted : list str)
+  (* round 4 *)
+| CArgs (s : str) (r : res N)                 (* MethodDescriptorSlice::get_arguments_size, observed through the class
+                                                 writer (the count operand of invokeinterface); Err = the writer failed *)
+| CDim (s : str) (r : res N)                  (* ArrClassNameSlice::dimension; Err = panic (assert_ne!) *)
+| CConv (s : str) (is_arr : bool) (arr obj : option str)  (* ClassNameSlice::is_array / as_arr / as_obj *)
+| CDescOf (s : str) (d : str)                 (* FieldDescriptor::from_class *)
+| CInner (s : str) (p i : option str)         (* get_inner_class_parent / get_inner_class_name *)
+| CJoin (p i s : str)                         (* ObjClassName::from_inner_class *)
+| CDisplay (s : str) (r : res str)            (* Display of a name type; Err = fmt::Error *)
+| CAll (s : str) (field : res ty) (ret : res (option ty)) (meth : res (list ty * option ty))
+       (printed : list bool)      (* for each of the three that parsed, in this order: write() of the parsed value gave s back *)
+       (names : list (N * bool))  (* (kind, is_valid) *)
+       (split : option (option (str * str))) (simple : option str)   (* evaluated on valid object class names only *)
+       (dim args : res N)
+       (conv : bool * bool * bool) (* is_array, as_arr is Some (then it is s), as_obj is Some (then it is s) *)
+       (disp : bool)               (* Display succeeded (then the text is s) *)
+  (* everything observed about one string, the string printed once *)
+| CWriteF (t : ty) (r : res str)              (* ParsedFieldDescriptor::write on a value built directly (unchecked names); Err = panic *)
+| CWriteM (m : list ty * option ty) (r : res str)
+| CSweepT (kind : N) (pre suf alphabet : str) (len : N) (accepted : list str)
+  (* as CSweep over the strings s = pre ++ w ++ suf, w over the alphabet up to len; the accepted w are listed *)
+| CSweepN (kind : N) (pre suf alphabet : str) (len : N) (vals : list (str * N))
+  (* all (w, n) with f s = Ok n; kind 0: f = args_size, otherwise arr_dimension *)
+| CSweepS (kind : N) (pre suf alphabet : str) (len : N) (vals : list (str * str)).
+  (* on valid object class names s: kind 0 (w, get_simple_name s); 1 (w, parent) and 2 (w, inner name) where it splits *)
   (* every string over [alphabet] of length <= len, enumerated by the model itself: the strings
      accepted by predicate/parser [kind] must be exactly the implementation's accepted list *)
 
@@ -40,13 +65,19 @@ Fixpoint strings_upto (alpha : str) (n : nat) : list str :=
   | S n' => strings_upto alpha n' ++ strings_of_len alpha n
   end.
 
-Definition name_pred (kind : N) (s : str) : bool :=
+(* the newtype behind a name kind; its guard is looked up in the table regenerated from the source *)
+Definition kind_name (kind : N) : str :=
   match kind with
-  | 0 => is_valid_class_name s
-  | 1 => is_valid_arr_class_name s
-  | 2 => is_valid_obj_class_name s
-  | 4 => is_valid_method_name s
-  | _ => is_valid_unqualified_name s
+  | 0 => n_ClassName | 1 => n_ArrClassName | 2 => n_ObjClassName | 3 => n_FieldName | 4 => n_MethodName
+  | 5 => n_ParameterName | 6 => n_LocalVariableName
+  | 11 => n_FieldDescriptor | 12 => n_MethodDescriptor | 13 => n_ReturnDescriptor | 14 => n_ClassSignature
+  | 15 => n_FieldSignature | 16 => n_MethodSignature | 17 => n_RecordName | 18 => n_ModuleName | 19 => n_PackageName
+  | _ => []
+  end.
+Definition name_pred (kind : N) (s : str) : bool :=
+  match lookup_guard (kind_name kind) gen_newtypes with
+  | Some g => guard_pred g s
+  | None => false
   end.
 
 Definition accepts (kind : N) (s : str) : bool :=
@@ -57,6 +88,19 @@ Definition accepts (kind : N) (s : str) : bool :=
   | 10 => is_valid_obj_class_name s && (match split_inner s with Some _ => true | None => false end)
   | k => name_pred k s
   end.
+
+(* run-length notation the harness uses for long runs of one character (255 `[`, 127 `D`, …) *)
+Definition rp (c n : N) : str := repeat c (N.to_nat n).
+Definition rps (u : str) (n : N) : str := concat (repeat u (N.to_nat n)).   (* a repeated unit: 254 x `[D`, … *)
+Definition rpt {A} (x : A) (n : N) : list A := repeat x (N.to_nat n).       (* a repeated list element *)
+Definition fun_N (kind : N) (s : str) : res N := match kind with 0 => args_size s | _ => arr_dimension s end.
+Definition fun_S (kind : N) (s : str) : option str :=
+  match kind with 0 => Some (get_simple_name s) | 1 => inner_parent s | _ => inner_name s end.
+
+Definition printed_model (s : str) (field : res ty) (ret : res (option ty)) (meth : res (list ty * option ty)) : list bool :=
+  (match field with Ok t => [str_eqb (print_ty t) s] | Err => [] end) ++
+  (match ret with Ok r => [str_eqb (print_return r) s] | Err => [] end) ++
+  (match meth with Ok m => [str_eqb (print_method m) s] | Err => [] end).
 
 Definition check (c : case) : bool :=
   match c with
@@ -69,4 +113,38 @@ Definition check (c : case) : bool :=
   | CSplit s r => opt_eqb (pair_eqb str_eqb str_eqb) (split_inner s) r
   | CSimple s r => str_eqb (get_simple_name s) r
   | CSweep k alpha len acc => list_eqb str_eqb (filter (accepts k) (strings_upto alpha (N.to_nat len))) acc
+  | CArgs s r => res_eqb N.eqb (args_size s) r
+  | CDim s r => res_eqb N.eqb (arr_dimension s) r
+  | CConv s b a o => Bool.eqb (is_array_name s) b && opt_eqb str_eqb (as_arr s) a && opt_eqb str_eqb (as_obj s) o
+  | CDescOf s d => str_eqb (desc_of_class s) d
+  | CInner s p i => opt_eqb str_eqb (inner_parent s) p && opt_eqb str_eqb (inner_name s) i
+  | CJoin p i s => str_eqb (join_inner p i) s
+  | CDisplay s r => res_eqb str_eqb (display s) r
+  | CAll s field ret meth printed names split simple dim args conv disp =>
+      res_eqb ty_eqb (parse_field s) field && res_eqb (opt_eqb ty_eqb) (parse_return s) ret &&
+      res_eqb (pair_eqb (list_eqb ty_eqb) (opt_eqb ty_eqb)) (parse_method s) meth &&
+      list_eqb Bool.eqb (printed_model s field ret meth) printed &&
+      forallb (fun kb => Bool.eqb (name_pred (fst kb) s) (snd kb)) names &&
+      match split with None => true | Some r => opt_eqb (pair_eqb str_eqb str_eqb) (split_inner s) r end &&
+      match simple with None => true | Some r => str_eqb (get_simple_name s) r end &&
+      res_eqb N.eqb (arr_dimension s) dim && res_eqb N.eqb (args_size s) args &&
+      (let '(ia, a, o) := conv in
+       Bool.eqb (is_array_name s) ia && opt_eqb str_eqb (as_arr s) (if a then Some s else None) &&
+       opt_eqb str_eqb (as_obj s) (if o then Some s else None)) &&
+      res_eqb str_eqb (display s) (if disp then Ok s else Err)
+  | CWriteF t r => res_eqb str_eqb (print_ty_res t) r
+  | CWriteM m r => res_eqb str_eqb (print_method_res m) r
+  (* the template sweeps list the variable part w only; the string is pre ++ w ++ suf *)
+  | CSweepT k pre suf alpha len acc =>
+      list_eqb str_eqb (filter (fun w => accepts k (pre ++ w ++ suf)) (strings_upto alpha (N.to_nat len))) acc
+  | CSweepN k pre suf alpha len vals =>
+      list_eqb (pair_eqb str_eqb N.eqb)
+        (flat_map (fun w => match fun_N k (pre ++ w ++ suf) with Ok n => [(w, n)] | Err => [] end)
+                  (strings_upto alpha (N.to_nat len))) vals
+  | CSweepS k pre suf alpha len vals =>
+      list_eqb (pair_eqb str_eqb str_eqb)
+        (flat_map (fun w => let s := pre ++ w ++ suf in
+                            if is_valid_obj_class_name s
+                            then match fun_S k s with Some v => [(w, v)] | None => [] end else [])
+                  (strings_upto alpha (N.to_nat len))) vals
   end.
